@@ -264,7 +264,15 @@ def gen_cases(ctx, rng, n_extra):
         args = list(base) if base is not None else []
         attrs = gen_attrs(rng, ser, cls, tuple(args))
         if where == "arg" and base is not None and cls.__name__ not in ("UnicodeEncodeError", "UnicodeDecodeError", "UnicodeTranslateError"):
-            args = args + [u] if rng.random() < 0.5 else [u] + args
+            args2 = args + [u] if rng.random() < 0.5 else [u] + args
+            try:
+                ok = enc(list(cls(*R.realise(tuple(args2))).args)[:0]) == "L()" and len(cls(*R.realise(tuple(args2))).args) == len(args2)
+            except Exception:
+                ok = False
+            if ok:
+                args = args2
+            else:
+                attrs["bad"] = u
         elif where == "attr-nested":
             attrs["bad"] = [1, {"k": u}]
         else:
